@@ -22,7 +22,8 @@ def canon(o, depth=0):
     if isinstance(o, np.ndarray):
         return ("ndarray", str(o.dtype), list(o.shape), [canon(x, depth + 1) for x in o.ravel().tolist()])
     if isinstance(o, pd.DataFrame):
-        return ("DataFrame", [str(c) for c in o.columns], [str(d) for d in o.dtypes], [canon(x, depth + 1) for x in o.index.tolist()],
+        return ("DataFrame", [canon(c, depth + 1) for c in o.columns.tolist()], type(o.columns).__name__, [str(d) for d in o.dtypes],
+                type(o.index).__name__, [canon(x, depth + 1) for x in o.index.tolist()],
                 [[canon(x, depth + 1) for x in o[c].tolist()] for c in o.columns])
     if isinstance(o, pd.Series):
         return ("Series", str(o.dtype), [canon(x, depth + 1) for x in o.index.tolist()], [canon(x, depth + 1) for x in o.tolist()])
